@@ -76,12 +76,12 @@ Proof. exact set_turns_no_edge. Qed.
 Print Assumptions C05_set_turns_no_edge.
 
 (* release and redefinition as one statement about operations: after the drop that makes the domain
-   unreachable, a request with its name and another length is Created (names with an unstarred non-empty
-   base, complement not live, non-failing class) *)
+   unreachable, a request with its name and any length (0 included) is Created (names with an unstarred
+   non-empty base, complement not live, non-failing class) *)
 Theorem C05_release_redefine : forall ct st slot c ci n l l' i ob,
-  Good ct st -> consts_nonzero ct -> get_root st slot = Some i -> live_obj (heap st) i ob ->
+  Good ct st -> get_root st slot = Some i -> live_obj (heap st) i ob ->
   o_cls ob = c -> o_name ob = n -> o_data ob = DDom l ->
-  nth_error ct c = Some ci -> c_fail ci = FNone -> l' <> 0%Z ->
+  nth_error ct c = Some ci -> c_fail ci = FNone ->
   base_unstarred n -> nonempty (cname_of n) = true ->
   ~ Reach (heap st) (root_ids (roots (set_root st slot None))) i ->
   absent st c (cname_of n) ->
